@@ -1,4 +1,5 @@
 mod bdd_rec;
+mod sat_rec;
 mod sdd_rec;
 mod tables;
 mod util;
@@ -12,6 +13,8 @@ fn main() {
     match (argv.get(1).map(|s| s.as_str()), argv.get(2).map(|s| s.as_str())) {
         (Some("record"), Some("bdd")) => bdd_rec::record(&args),
         (Some("record"), Some("sdd")) => sdd_rec::record(&args),
+        (Some("record"), Some("sat")) => sat_rec::record_sat(&args),
+        (Some("record"), Some("topdown")) => sat_rec::record_topdown(&args),
         (Some("record"), Some("table")) => tables::record_table(&args),
         (Some("replay"), Some("table")) => tables::replay_table(&args),
         (Some("record"), Some("lru")) => tables::record_lru(&args),
